@@ -164,7 +164,7 @@ theorem reg_kept {K : Consts} (hK : ConstsOk K) {cfg : Cfg} {users : List Str} {
     | error e => exact same (by simp [step, hres, liftNid])
     | ok r =>
       obtain ⟨n, Q⟩ := r
-      obtain ⟨id, _, _, i⟩ := mappingRequest_outcome inv ht0 htu hop.1.2 hop.2 hem hres
+      obtain ⟨id, _, _, i, _, _⟩ := mappingRequest_outcome inv ht0 htu hop.1.2 hop.2 hem hres
       exact issued i (by simp [step, hres, liftNid])
   | manage n m =>
     simp only [opOk] at hop
